@@ -38,6 +38,7 @@ def _ref_child(arg):
                 doc["classes"] = fp.node_classes(tree)
             if "stmts" in want:
                 doc["stmts"] = statement_list(tree)
+                doc["n_line_items"] = count_line_items(tree)
         return doc
     finally:
         if fs is not None:
@@ -60,6 +61,21 @@ def statement_list(tree):
             except Exception as err:
                 out.append([type(node).__name__, "<str raised %s>" % type(err).__name__])
     return out
+
+
+def count_line_items(tree):
+    """Number of distinct reader Line items the tree's nodes refer to = number of source
+    statements that made it into the tree."""
+    from fparser.common.readfortran import Line
+
+    from .kit import fp as _fp
+
+    seen = set()
+    for node, _ in _fp.iter_nodes(tree):
+        item = getattr(node, "item", None)
+        if isinstance(item, Line):
+            seen.add(id(item))
+    return len(seen)
 
 
 def outcome(std, kind, source, opts, image=None, want=None, timeout=60.0):
